@@ -140,7 +140,7 @@ impl Activity {
 /// (reported as a hang).
 pub async fn settle(act: &Activity) -> bool {
     let mut quiet = 0;
-    for _ in 0..200_000 {
+    for _ in 0..5_000 {
         let a = act.get();
         tokio::task::yield_now().await;
         if act.get() == a {
@@ -472,7 +472,9 @@ impl StreamSession {
     }
 
     pub async fn settle(&mut self) {
-        if !settle(&self.act).await {
+        // once the transport has been seen spinning there is no point in
+        // waiting for it again: the projection carries "hang"
+        if !self.hang && !settle(&self.act).await {
             self.hang = true;
         }
     }
